@@ -16,7 +16,7 @@ import os
 import pickle
 
 from machines.common import (CACHE_REL, DOC_FILE, HEX32, SCALARS, SP_FILE, check_project, cid, fresh_view,
-                             gen_sp, gen_value, leftovers, norm, quiet, raw_project, raw_ws_entries,
+                             gen_sp, gen_value, leftovers, norm, quiet, raw_project, read_json, raw_ws_entries,
                              same, viol)
 from simcore.driver import EngineBase, generic_shrink
 from simcore.sched import install_locks, install_pools
@@ -121,7 +121,7 @@ class Engine(EngineBase):
                    + ["sp_set"] * 6 + ["sp_del"] * 2 + ["sp_nested"] * 2 + ["sp_assign"] * 2
                    + ["update_sp"] * 2 + ["move"] * 3 + ["clone"] * 3 + ["update_cache", "restart", "restart"]
                    + ["drop", "copy", "copy", "deepcopy", "pickle", "init_project", "rm_cache", "rm_workspace",
-                      "open_gone", "open_gone", "buffered_move"])
+                      "open_gone", "open_gone", "buffered_move", "buffered_clone"])
             if rng.random() < (0.03 if tier == "quick" else 0.15):
                 mix += ["pickle_fresh"] * 2
             if P == "C03":
@@ -140,7 +140,7 @@ class Engine(EngineBase):
                 ops.append(o)
             elif k == "open_id":
                 ops.append([k, pi, h, rng.choice([32, 32, 32, "min", "min+1"])])
-            elif k == "buffered_move":
+            elif k in ("buffered_move", "buffered_clone"):
                 ops.append([k, h, rng.choice("pq"), "bm%d" % rng.randrange(10**6)])
             elif k == "open_gone":
                 # the full id of a job that existed earlier (removed / re-keyed / moved away since)
@@ -1027,6 +1027,42 @@ class Run:
         hd.group = self.new_group()
         self.mutations += 1
         self.probe("buffered_move")
+
+    def op_buffered_clone(self, op):
+        """with signac.buffered(): job.doc[k] = v; other_project.clone(job) - as one step: the copy is made with
+        the document change, and the source has it too."""
+        P = "C04"
+        hd = self._usable_for_doc(op)
+        if hd is None or hd.tainted:
+            return
+        src_pi, dst_pi = hd.proj, 1 - hd.proj
+        jid = cid(hd.sp)
+        if jid in self.model[dst_pi] or jid in self.emptydirs[dst_pi] or jid in self.emptydirs[src_pi] \
+                or jid in self.decoys[dst_pi]:
+            return  # the plain clone's refusals are op_clone's business
+        holder = {}
+
+        def f():
+            with self.signac.buffered():
+                hd.obj.doc[op[2]] = op[3]
+                holder["c"] = self.projects[dst_pi].clone(hd.obj)
+
+        exc, _ = self.call(f)
+        self.expect(exc, None, op, P)
+        j = self._ensure(hd)
+        j["doc"][op[2]] = norm(op[3])
+        self.model[dst_pi][jid] = {"sp": copy.deepcopy(j["sp"]), "doc": copy.deepcopy(j["doc"]),
+                                   "files": dict(j["files"]), "lin": self._lin()}
+        with self.world.observing():
+            got = read_json(os.path.join(self.pp[dst_pi], "workspace", jid, DOC_FILE))
+        if got[0] != "ok" or not same(got[1], j["doc"]):
+            raise Mismatch(P, "C04:buffered_clone:copy-differs",
+                           f"op {op}: the clone's document file is {got[0]} {str(got[1])[:120]}, the source's "
+                           f"document is {j['doc']}")
+        self.handles.append(H(holder["c"], dst_pi, j["sp"], self.new_group(), "clone"))
+        self.handles[-1].loaded = True
+        self.mutations += 1
+        self.probe("buffered_clone")
 
     def op_clone(self, op):
         P = "C04"
